@@ -19,6 +19,13 @@ import (
 )
 
 // DagItem is a work item of the DAG engine.
+// c03PinnedWindows: in-flight window (smallest ladder cache size at which the in-memory store never read an evicted
+// item) measured on the pinned tree for inputs in which a validator returns after a long silence.
+var c03PinnedWindows = map[string]int{
+	"harvest:returning:12:160:40": 120,
+	"harvest:returning:12:260:30": 120,
+}
+
 type DagItem struct {
 	Source   string      `json:"src"` // "harvest:<scenario>" | "enum:<n>:<max>:<c0>,<c1>…" (prefix of generation choices)
 	Devs     []sched.Dev `json:"devs,omitempty"`
@@ -373,6 +380,31 @@ func checkDag(evs []dag.Ev, n int, it DagItem, res *DagResult, label string) {
 			}
 		}
 		res.Counters["window_sum"] += w
+		if w0, ok := c03PinnedWindows[it.Source]; ok {
+			// The window above is measured on the tree under test, so a change that makes the in-memory store lose
+			// things it used to hold would only move the window. For these inputs the window of the pinned tree is
+			// written down (c03PinnedWindows); at twice that size the in-memory store must still compute what a
+			// BadgerStore of the same cache size computes.
+			res.Counters["pinned_window_inputs"]++
+			sz := 2 * w0
+			oi := base
+			oi.CacheSize = sz
+			vi := run(evs, oi)
+			ob := base
+			ob.CacheSize = sz
+			ob.Badger = true
+			ob.Dir = scratchDir()
+			vb := run(evs, ob)
+			res.Counters["cache_variants"] += 2
+			if vi.Err != "" && vb.Err == "" && cmpLoose(ref, vb) == "" {
+				report("cache-size-store-dependence", fmt.Sprintf("InmemStore cache %d (twice the in-flight window %d of the pinned tree for this input; now measured: %d)", sz, w0, w),
+					fmt.Sprintf("the in-memory store fails (%s) where a BadgerStore with the same cache size computes the reference result", vi.Err), nil)
+			} else if vi.Err == "" {
+				if d := cmpLoose(ref, vi); d != "" {
+					report("cache-size", fmt.Sprintf("InmemStore cache %d", sz), d, nil)
+				}
+			}
+		}
 		if w < 10000 {
 			for _, sz := range []int{w, w + 1, 2 * w} {
 				o := base
@@ -710,6 +742,16 @@ func init() {
 			oooDev = append(oooDev, DagItem{Source: fmt.Sprintf("named:outoforder~%d", k), Variants: []string{"orders", "batch", "cuts"}, Level: lvl, Static: true})
 		}
 		phases = append(phases, phase{"single-event deviations of the out-of-order-election DAG (k=4..51), orders, batchings and cuts", oooDev})
+		// a validator that comes back after a long silence (its next event's self-parent is hundreds of events old):
+		// store and cache variants only, judged against the in-flight window of the pinned tree
+		var ret []DagItem
+		for _, src := range []string{"harvest:returning:12:160:40", "harvest:returning:12:260:30"} {
+			if _, ok := c03PinnedWindows[src]; !ok {
+				ev.Fail("C03: no pinned window for %s", src)
+			}
+			ret = append(ret, DagItem{Source: src, Variants: []string{"store", "cache"}, Level: lvl, Static: true})
+		}
+		phases = append(phases, phase{"final DAGs of two runs in which a validator is silent for 320 / 520 events and then returns: store and cache variants; at twice the in-flight window of the pinned tree the in-memory store must compute what a BadgerStore of that cache size computes", ret})
 		// (b) harvested DAGs
 		var hv []DagItem
 		for _, s := range []string{scStatic3, scStatic4, scSilent4, scLate4, scSilent5, scLaggards4, scPart4, "slow:4:4:1:120", "slow:4:5:0:120", "slow:4:2:0:120"} {
@@ -718,6 +760,7 @@ func init() {
 		for _, s := range []string{scJoin3, scLeave4, scJoin2} {
 			hv = append(hv, DagItem{Source: "harvest:" + s, Variants: []string{"orders", "store", "cache", "cuts"}, Level: lvl, Static: false})
 		}
+
 		phases = append(phases, phase{"final DAGs of 13 E1 seeds (static 3/4, silent 4/5, late witness, one-way laggard, partition, three runs with one validator taking every 2nd/4th/5th turn only: all variants; join 3->4, leave 4->3, join 2->3: orders, store, cache, cuts)", hv})
 		var hd []DagItem
 		stride := 9
